@@ -25,6 +25,30 @@ Inductive event :=
 | EvCheck (id p : Z).          (* the expectation's checker is called with message id whose Partition is p *)
 
 Record cfg := { ret_succ : bool; ret_err : bool }.
+
+(* ---- TopicConfig (mocks.go): the partition counts offered to the partitioners ---- *)
+(* What the test does to a mock's TopicConfig before producing. SetPartitions copies the entries of the map it is
+   given into the mock's own map (later calls win per topic): whatever the caller does to ITS map afterwards, and
+   whatever another mock that was handed the same map does, changes nothing for this mock. *)
+Inductive cfgop :=
+| CfgDefault (n : Z)                    (* SetDefaultPartitions(n) *)
+| CfgSet (l : list (Z * Z))             (* SetPartitions(map topic -> count) *)
+| CfgCallerEdits (l : list (Z * Z))     (* the caller writes these entries into the map it passed to the last SetPartitions *)
+| CfgOtherMock (l : list (Z * Z)).      (* a second mock is given the same map, then SetPartitions(l) of its own *)
+Record tconf := { tc_def : Z; tc_over : list (Z * Z) }.
+Definition tc_init : tconf := {| tc_def := 32; tc_over := [] |}.     (* NewTopicConfig *)
+Definition tc_apply (t : tconf) (o : cfgop) : tconf :=
+  match o with
+  | CfgDefault n => {| tc_def := n; tc_over := tc_over t |}
+  | CfgSet l => {| tc_def := tc_def t; tc_over := l ++ tc_over t |}
+  | CfgCallerEdits _ | CfgOtherMock _ => t
+  end.
+Definition tc_run (ops : list cfgop) : tconf := fold_left tc_apply ops tc_init.
+Fixpoint tc_lookup (k : Z) (l : list (Z * Z)) : option Z :=
+  match l with [] => None | (k', v) :: r => if Z.eqb k k' then Some v else tc_lookup k r end.
+(* TopicConfig.partitions(topic) *)
+Definition tc_partitions (t : tconf) (topic : Z) : Z :=
+  match tc_lookup topic (tc_over t) with Some n => n | None => tc_def t end.
 Record st := { exps : list expectation; last : Z }.
 
 Definition init (es : list expectation) : st := {| exps := es; last := 0 |}.
